@@ -16,10 +16,11 @@ Record variant := mkVariant {
   v_create_unchecked : bool;  (* CreateDappProposal does not compare the creation bond with MaxDappBond *)
   v_convert_stale : bool;     (* ConvertDappPoolTx swaps into the target record read BEFORE the redemption *)
   v_create_negative : bool;   (* CreateDappProposal accepts a negative bond from a holder of the bond-free permission *)
-  v_upsert_raw : bool         (* the upsert-dApp proposal stores the proposal's record wholesale: TotalBond, Status, CreationTime, ... *)
+  v_upsert_raw : bool;        (* the upsert-dApp proposal stores the proposal's record wholesale: TotalBond, Status, CreationTime, ... *)
+  v_fee_unchecked : bool      (* CreateDappProposal accepts any PoolFee, also negative or above 1 *)
 }.
-Definition as_is : variant := mkVariant true true true true true true.       (* the tree before any repair *)
-Definition repaired : variant := mkVariant false false false false false false.
+Definition as_is : variant := mkVariant true true true true true true true.       (* the tree before any repair *)
+Definition repaired : variant := mkVariant false false false false false false false.
 
 (* network properties used by the module *)
 Record config := mkConfig { c_min_raw : Z; c_max_raw : Z; c_duration : Z;
@@ -172,6 +173,7 @@ Record dparams := mkParams { p_lp : string; p_lp_ok : bool; p_ratio : Z; p_premi
 Definition create (v : variant) (c : config) (st : state) (u : string) (priv foreign : bool) (n : string) (amt : Z) (p : dparams)
   : outcome state :=
   if (priv && foreign)%bool then Err "outside the modelled inputs" else
+  if (negb (v_fee_unchecked v) && ((p_fee p <? 0) || (PREC <? p_fee p)))%bool then Err "invalid pool fee" else
   if (negb (v_create_negative v) && (amt <? 0))%bool then Err "low amount" else
   if (negb priv && foreign)%bool then Err "invalid dapp bond denom" else
   if (negb priv && (amt * 100 <? min_thr c))%bool then Err "low amount" else
